@@ -151,10 +151,14 @@ def _dialect_from_call(module, call):
     """Interpret create_dialect({...}, accept_kwargs=...) -> (ordered params, accept_kwargs)"""
     if not (isinstance(call, ast.Call) and isinstance(call.func, ast.Name) and call.func.id == "create_dialect"):
         return None
-    if not call.args:
+    first = call.args[0] if call.args else None
+    for kw in call.keywords:
+        if kw.arg == "default_attributes":
+            first = kw.value
+    if first is None:
         return None
     try:
-        d = fold_const(call.args[0], module)
+        d = fold_const(first, module)
     except ValueError:
         raise AnalysisError("create_dialect argument is not a literal", "%s:%d" % (module.relpath, call.lineno))
     accept = True
